@@ -86,14 +86,27 @@ def oversize_case(args):
     sp = t3.Spec(maxtasks=mx, bufsize=2)
     sp.files["a.txt"] = "a\n"
     s = sp.src("src", ["a.txt"])
-    sp.proc(t3.Proc("big", kind="cattok", ins=[("a", [(s, "out")])], outs=[("o", "{i:a}.big")], cores=mx + rng.randint(1, 3)))
+    big_cores = mx + rng.randint(1, 3)
+    shape = i % 4
+    if shape == 0:      # the only process
+        sp.proc(t3.Proc("big", kind="cattok", ins=[("a", [(s, "out")])], outs=[("o", "{i:a}.big")], cores=big_cores))
+    elif shape == 1:    # the last process of a chain, without out-ports: it runs in the caller's goroutine in place of the sink
+        pre = sp.proc(t3.Proc("pre", kind="cattok", ins=[("a", [(s, "out")])], outs=[("o", "{i:a}.pre")]))
+        sp.proc(t3.Proc("big", kind="cat", ins=[("a", [(pre, "o")])], outs=[], cores=big_cores))
+    elif shape == 2:    # in the middle of a chain
+        pre = sp.proc(t3.Proc("pre", kind="cattok", ins=[("a", [(s, "out")])], outs=[("o", "{i:a}.pre")]))
+        big = sp.proc(t3.Proc("big", kind="cattok", ins=[("a", [(pre, "o")])], outs=[("o", "{i:a}.big")], cores=big_cores))
+        sp.proc(t3.Proc("post", kind="cat", ins=[("a", [(big, "o")])], outs=[("o", "{i:a}.post")]))
+    else:               # out-port-less, beside another branch
+        sp.proc(t3.Proc("side", kind="cattok", ins=[("a", [(s, "out")])], outs=[("o", "{i:a}.side")]))
+        sp.proc(t3.Proc("big", kind="cat", ins=[("a", [(s, "out")])], outs=[], cores=big_cores))
     sc = t3.Scratch()
     try:
         sc.plant(sp.files)
         impl = t3.run_impl(sc, sp, timeout=30)
         problems = []
-        if impl["timed_out"]:
-            problems.append(("oversize-hangs", "a process asking for more cores than maxConcurrentTasks hangs instead of being rejected"))
+        if impl["timed_out"] or "all goroutines are asleep" in (impl["stderr"] + impl["stdout"]):
+            problems.append(("oversize-hangs", "a process asking for more cores than maxConcurrentTasks hangs (deadlock) instead of being rejected"))
         elif impl["rc"] == 0:
             problems.append(("oversize-accepted", "a process asking for more cores than maxConcurrentTasks ran to completion"))
         if any(k.startswith("big") for k in t3.started_keys(impl["trace"])):
@@ -117,7 +130,7 @@ def run(rep, tier, seed):
     t3.report_t3(rep, MODULE, proved, results, "T3 rendezvous / mixed cores / oversize")
     rep.cov["evaluations"] = len(results)
     rep.cov["distinct_nontrivial"] = len({r["spec"] for r in results})
-    rep.cov["rule"] = "rendezvous: k in 2..4 tasks of c in 1..3 cores with k*c <= max, each command waits (8 s bound) until all k have started, with seeded delays of up to 2 ms at every slot hook point (before the lock, after it, after each token deposit); mixed: 1-4 processes with different CoresPerTask competing under delays, must terminate and match the reference evaluator; head-blocked: one process with more one-core tasks than slots whose oldest task waits until the newest has started (slots freed by the tasks in between must be used); oversize: CoresPerTask > max must exit non-zero without executing a command of that process; all cases distinct and non-trivial"
+    rep.cov["rule"] = "rendezvous: k in 2..4 tasks of c in 1..3 cores with k*c <= max, each command waits (8 s bound) until all k have started, with seeded delays of up to 2 ms at every slot hook point (before the lock, after it, after each token deposit); mixed: 1-4 processes with different CoresPerTask competing under delays, must terminate and match the reference evaluator; head-blocked: one process with more one-core tasks than slots whose oldest task waits until the newest has started (slots freed by the tasks in between must be used); oversize (as the only process, as the out-port-less last process of a chain, in the middle of a chain, out-port-less beside another branch): CoresPerTask > max must exit non-zero without executing a command of that process; all cases distinct and non-trivial"
     rep.cov["samples"] = [results[0]["spec"]]
     kinds = {}
     for r in results:
